@@ -55,6 +55,40 @@ type azWorld struct {
 	cl     []*mqttc.Client
 	permit int
 	refuse int
+	wkey   string
+	nwill  int
+}
+
+// willOK connects a client whose last will is addressed with the key, drops the connection
+// and reports whether the will was published: a watcher that holds a subscription on the
+// channel with a fully capable key receives it or not.
+func (w *azWorld) willOK(key string, lv []string) bool {
+	watcher := w.cl[0]
+	if w.wkey == "" {
+		w.wkey = world.Keygen(w.c, watcher, w.lic.Master, "#/", "rw", 0)
+	}
+	watcher.Recv()
+	watcher.Send(watcher.Subscribe(w.wkey + "/" + model.Join(lv)))
+	world.Settle()
+	watcher.Recv()
+	w.nwill++
+	pl := fmt.Sprintf("will-%d", w.nwill)
+	v := w.b.Attach("willer")
+	world.ConnectClient(w.c, v, "willer", "", &mqttc.Will{Topic: key + "/" + model.Join(lv), Payload: []byte(pl)})
+	v.Conn.Close()
+	v.Gone = true
+	world.Settle()
+	pk, _ := watcher.Recv()
+	got := false
+	for _, x := range pk {
+		if pub, y := x.(*packets.PublishPacket); y && string(pub.Payload) == pl {
+			got = true
+		}
+	}
+	watcher.Send(watcher.Unsubscribe(w.wkey + "/" + model.Join(lv)))
+	world.Settle()
+	watcher.Recv()
+	return got
 }
 
 var azLits = []string{"a", "b", "c"}
@@ -238,10 +272,14 @@ func runAuthz(c *kernel.Ctx, prop string) {
 			lv := w.genLevels(4, true, w.b.Opts.Matcher == "mqtt" || t.Chance(1, 3))
 			got := w.subscribeOK(cl, k.Key, lv)
 			w.decide("subscribe", k, model.PermRead, lv, got, expClass)
-		case op < 11: // publish: write, static channels only
+		case op < 10: // publish: write, static channels only
 			lv := w.genLevels(4, false, false)
 			got := w.publishOK(cl, k.Key, lv)
 			w.decide("publish", k, model.PermWrite, lv, got, expClass)
+		case op < 11: // last will: a publish made on behalf of a connection that ended
+			lv := w.genLevels(4, false, false)
+			got := w.willOK(k.Key, lv)
+			w.decide("will", k, model.PermWrite, lv, got, expClass)
 		case op < 13: // history: load
 			lv := w.genLevels(4, true, false)
 			got, _ := w.requestOK(cl, "history", map[string]any{"key": k.Key, "channel": k.Key + "/" + model.Join(lv)})
@@ -439,6 +477,14 @@ func runC11(w *azWorld) {
 				typ += string(ch)
 			}
 		}
+		if t.Chance(1, 6) {
+			// characters that name no permission: upper case, digits, blanks, and letters and symbols beyond ASCII
+			// (their UTF-8 bytes lie above 0x7f and must not be taken for anything)
+			odd := []string{"R", "W", "7", " ", "\u5b57", "\U0001f600", "\u00e9", "\uc5b4", "\U000b0000", "\U000f3000", "\u00f2", "\u0440"}[t.Choose(12)]
+			at := t.Choose(len(typ) + 1)
+			typ = typ[:at] + odd + typ[at:]
+			c.Probe("keygen-type-with-characters-that-name-no-permission")
+		}
 		ttl := []int{0, 20, 200, -30}[t.Choose(4)] // a negative ttl asks for a key that has already expired
 		var chanLv []string
 		chanStr := ""
@@ -601,6 +647,9 @@ func runC11(w *azWorld) {
 				// an extendable key cannot itself be used to publish or subscribe
 				if w.subscribeOK(cl, r.Key, useLv) || w.publishOK(cl, r.Key, useLv) {
 					c.Check("ext-use", "pubsub", "a key with the extend permission was accepted for publish or subscribe")
+				}
+				if k.Permissions()&security.AllowWrite != 0 && w.willOK(r.Key, useLv) {
+					c.Check("ext-use", "last-will", "a key with the extend permission was accepted for the last will of a connection (a publish)")
 				}
 				body, _ := json.Marshal(map[string]any{"name": "lx", "key": r.Key, "channel": model.Join(useLv), "subscribe": true})
 				cl.Send(cl.Publish("emitter/link/", body, false, false))
